@@ -22,7 +22,7 @@ func checkC08(r *Run) {
 	forLoopsRuleSSA(r)
 	forIterableRuleSSA(r)
 	coreBlockRules(r, "R4", "R4")
-	inLoopFlagRule(r, "R5")
+	inLoopFlagRuleSSA(r, "R5")
 }
 
 type loopSummary struct {
